@@ -57,6 +57,9 @@ def iir(al, den, route):
             pass
         for k, c in enumerate(d):
             f.denpoly[k] = c
+        # (only when the object really exposes its live denominator: C11 does not promise that it does)
+        if [f.denpoly[k] for k in range(len(d))] != d or len(list(f.denpoly.terms())) != sum(1 for c in d if c != 0):
+            return al.ZFilter([1], d)
         return f
     if route == "inverse":
         return 1 / al.ZFilter(d)
